@@ -32,7 +32,7 @@ def src_line(mod, inst, repo):
 
 def run(tier, seed):
     V = common.Verdict("C14", tier, seed)
-    plan = ["K17", "K17A"] if tier == "quick" else ["K17", "K17A", "K20"]
+    plan = ["K17", "K17A", "K20"]
     from fxai import pipeline as P
     for cfg in plan:
         try:
